@@ -9,6 +9,7 @@ import (
 	"strings"
 
 	"mltwist/internal/consoleui/verifsim/core"
+	_ "mltwist/internal/consoleui/verifsim/emusim"
 	_ "mltwist/internal/consoleui/verifsim/loadsim"
 	_ "mltwist/internal/consoleui/verifsim/memsim"
 	_ "mltwist/internal/consoleui/verifsim/movesim"
